@@ -200,6 +200,38 @@ enum SrcPost
     POST_MOVED       // rvalue range / move_iterator: every item moved from exactly once, no copies
 };
 
+// random access iterator over every second item of an array: pointer-sized, lvalue reference, operator-> - everything a
+// contiguous iterator has, except contiguity
+template <class S>
+struct StrideIt
+{
+    using iterator_category = std::random_access_iterator_tag;
+    using value_type = S;
+    using difference_type = std::ptrdiff_t;
+    using pointer = S*;
+    using reference = S&;
+    S* p = nullptr;
+    reference operator*() const { return *p; }
+    pointer operator->() const { return p; }
+    reference operator[](difference_type n) const { return p[2 * n]; }
+    StrideIt& operator++() { p += 2; return *this; }
+    StrideIt operator++(int) { auto c = *this; p += 2; return c; }
+    StrideIt& operator--() { p -= 2; return *this; }
+    StrideIt operator--(int) { auto c = *this; p -= 2; return c; }
+    StrideIt& operator+=(difference_type n) { p += 2 * n; return *this; }
+    StrideIt& operator-=(difference_type n) { p -= 2 * n; return *this; }
+    friend StrideIt operator+(StrideIt a, difference_type n) { return a += n; }
+    friend StrideIt operator+(difference_type n, StrideIt a) { return a += n; }
+    friend StrideIt operator-(StrideIt a, difference_type n) { return a -= n; }
+    friend difference_type operator-(StrideIt a, StrideIt b) { return (a.p - b.p) / 2; }
+    friend bool operator==(StrideIt a, StrideIt b) { return a.p == b.p; }
+    friend bool operator!=(StrideIt a, StrideIt b) { return a.p != b.p; }
+    friend bool operator<(StrideIt a, StrideIt b) { return a.p < b.p; }
+    friend bool operator>(StrideIt a, StrideIt b) { return a.p > b.p; }
+    friend bool operator<=(StrideIt a, StrideIt b) { return a.p <= b.p; }
+    friend bool operator>=(StrideIt a, StrideIt b) { return a.p >= b.p; }
+};
+
 // run one cell: `emplace(vec)` performs the emplace_back with the source under test
 template <class T, class S, bool Varying, class EmplaceFn, class SrcCheck>
 static void cell(const char* form, int n, EmplaceFn&& emplace_fn, SrcPost post, SrcCheck&& src_check)
@@ -456,6 +488,40 @@ static void forms_for_length()
                                     },
                                     POST_NONE, [] {});
             }
+            {
+                // iterator adaptors over contiguous storage that are random access, pointer-sized and have operator->,
+                // but do not walk the storage forwards: the items behind a reverse iterator read RAW[0], RAW[1], ...
+                std::vector<S> s;
+                s.reserve(static_cast<std::size_t>(N) + 1);
+                for (int i = N; i >= 0; --i) s.push_back(make_s<S>(RAW[i % 4]));
+                auto unchanged = [&]
+                {
+                    std::vector<int> vals;
+                    if constexpr (IS_TRACKED<S>)
+                        for (int i = 0; i <= N; ++i)
+                            if (s[static_cast<std::size_t>(N - i)].val != RAW[i % 4])
+                                report("C15", "emplace", "lvalue-source-modified:reverse iterator", "item %d of an lvalue source now has value %d", i,
+                                       s[static_cast<std::size_t>(N - i)].val);
+                };
+                cell<T, S, Varying>("std::reverse_iterator<S*>", N, [&](auto& v) { emp(v, std::make_reverse_iterator(s.data() + s.size())); },
+                                    POST_UNCHANGED, unchanged);
+                cell<T, S, Varying>("std::reverse_iterator<const S*>", N,
+                                    [&](auto& v) { emp(v, std::make_reverse_iterator(static_cast<const S*>(s.data()) + s.size())); }, POST_UNCHANGED,
+                                    unchanged);
+                cell<T, S, Varying>("std::vector::reverse_iterator", N, [&](auto& v) { emp(v, s.rbegin()); }, POST_UNCHANGED, unchanged);
+                cell<T, S, Varying>("std::vector::const_reverse_iterator", N, [&](auto& v) { emp(v, s.crbegin()); }, POST_UNCHANGED, unchanged);
+            }
+            {
+                // user-defined random access iterator over every second item of an array
+                std::vector<S> s;
+                s.reserve(2 * static_cast<std::size_t>(N) + 2);
+                for (int i = 0; i <= N; ++i)
+                {
+                    s.push_back(make_s<S>(RAW[i % 4]));
+                    s.push_back(make_s<S>(RAW[(i + 2) % 4]));
+                }
+                cell<T, S, Varying>("stride-2 pointer iterator", N, [&](auto& v) { emp(v, StrideIt<S>{s.data()}); }, POST_NONE, [] {});
+            }
             if constexpr (S_COPY)
             {
                 auto tmp = make_vec<S>(N + 1);
@@ -500,6 +566,24 @@ static void forms_for_length()
                                                 if (s[static_cast<std::size_t>(i)].val != MOVED)
                                                     report("C15", "emplace", "rvalue-source-not-moved:move_iterator", "item %d behind a move_iterator was not moved from", i);
                                             if (s[static_cast<std::size_t>(N)].val == MOVED)
+                                                report("C15", "emplace", "move_iterator:consumed-too-many", "an item behind the last needed one was moved from");
+                                        }
+                                    });
+            }
+            {
+                std::vector<S> s;
+                s.reserve(static_cast<std::size_t>(N) + 1);
+                for (int i = N; i >= 0; --i) s.push_back(make_s<S>(RAW[i % 4]));
+                cell<T, S, Varying>("std::move_iterator<reverse_iterator<S*>>", N,
+                                    [&](auto& v) { emp(v, std::make_move_iterator(std::make_reverse_iterator(s.data() + s.size()))); }, POST_MOVED,
+                                    [&]
+                                    {
+                                        if constexpr (IS_TRACKED<S>)
+                                        {
+                                            for (int i = 0; i < N; ++i)
+                                                if (s[static_cast<std::size_t>(N - i)].val != MOVED)
+                                                    report("C15", "emplace", "rvalue-source-not-moved:move_iterator", "item %d behind a move_iterator<reverse_iterator> was not moved from", i);
+                                            if (s[0].val == MOVED)
                                                 report("C15", "emplace", "move_iterator:consumed-too-many", "an item behind the last needed one was moved from");
                                         }
                                     });
